@@ -9,6 +9,7 @@ import FB.CreatedFiles
 import FB.BuildDirs
 import FB.PathNorm
 import FB.Backups
+import FB.Overlay
 import FB.Conc
 open FB FB.Wire
 open Lean (Json)
@@ -375,6 +376,62 @@ def runBK (j : Lean.Json) : Except String Lean.Json := do
     outs := outs.push (Json.mkObj [("tree", showTree fs), ("log", showBK b), ("ret", ret)])
   return Json.mkObj [("outs", .arr outs)]
 
+/-- `SimpleOperationExecutor` (`FB.Overlay`): set the `BuildDirs` and `CreatedFiles` objects up by command
+    sequences, then run queries (each with or without the overlay); print every answer and `BuildDirs` state -/
+def runOV (j : Lean.Json) : Except String Lean.Json := do
+  let fs ← parseTree (← j.getObjVal? "tree")
+  let dirSize ← getNat (← j.getObjVal? "dirSize")
+  let cacheFile := parsePath (← (← j.getObjVal? "cacheFile").getStr?)
+  let building ← getPaths (← j.getObjVal? "building")
+  let finished ← getPaths (← j.getObjVal? "finished")
+  let oldCreated ← getPaths (← j.getObjVal? "oldCreated")
+  let oldDirs ← getPaths (← j.getObjVal? "oldDirs")
+  -- BuildDirs: constructor, then started/error commands
+  let mut b : FB.BuildDirs.BD := FB.BuildDirs.init oldDirs oldCreated
+  for cmd in (← (← j.getObjVal? "bdCmds").getArr?) do
+    let a ← cmd.getArr?
+    let k ← (a[0]?.getD Lean.Json.null).getStr?
+    let p := parsePath (← (a[1]?.getD Lean.Json.null).getStr?)
+    match k with
+    | "started" =>
+      let cds ← getPaths (a[2]?.getD (Lean.Json.arr #[]))
+      b := (FB.BuildDirs.started b p cds).1
+    | "error" =>
+      match FB.BuildDirs.error b p with
+      | some b' => b := b'
+      | none => return Json.mkObj [("setup", .str "KeyError")]
+    | x => throw s!"bad bd setup command {x}"
+  -- CreatedFiles
+  let mut cf : FB.CreatedFiles.CF := {}
+  for cmd in (← (← j.getObjVal? "cfCmds").getArr?) do
+    let a ← cmd.getArr?
+    let k ← (a[0]?.getD Lean.Json.null).getStr?
+    let p := parsePath (← (a[1]?.getD Lean.Json.null).getStr?)
+    let next := match k with
+      | "s" => FB.CreatedFiles.step cf (.started p)
+      | "f" => FB.CreatedFiles.step cf (.finished p)
+      | _ => FB.CreatedFiles.step cf (.error p)
+    match next with
+    | some c' => cf := c'
+    | none => return Json.mkObj [("setup", .str "KeyError")]
+  let mut outs : Array Lean.Json := #[]
+  let mut dead := false
+  for qj in (← (← j.getObjVal? "queries").getArr?) do
+    let a ← qj.getArr?
+    let q ← parseQuery (a.extract 0 4)
+    let useCf ← (a[4]?.getD (Lean.Json.bool false)).getBool?
+    if dead then outs := outs.push (.str "dead") else
+    let ctx : FB.Overlay.Ctx := { fs, dirSize, cacheFile, building, finished, oldCreated, cf := if useCf then some cf else none }
+    match FB.Overlay.exec ctx b q with
+    | none => outs := outs.push (.str "KeyError"); dead := true
+    | some (r, b') =>
+      let rj := match r with
+        | .ok v => Json.mkObj [("ok", showJson v)]
+        | .error e => Json.mkObj [("exc", .str e.name)]
+      outs := outs.push (Json.mkObj [("res", rj), ("state", showBD b')])
+      b := b'
+  return Json.mkObj [("outs", .arr outs)]
+
 def handle (line : String) : Lean.Json :=
   match Lean.Json.parse line with
   | .error e => Json.mkObj [("bad-op", .str e)]
@@ -390,6 +447,7 @@ def handle (line : String) : Lean.Json :=
       | "bd" => runBD j
       | "path" => runPath j
       | "bk" => runBK j
+      | "ov" => runOV j
       | k => throw s!"unknown kind {k}"
     match r with
     | .ok out => out.setObjVal! "id" id
